@@ -187,6 +187,31 @@ def _finish(simu, mesh, coord, c, res):
     res["dof_n"] = dof_n
     res["all_unknowns"] = list(simu.Get_unknowns())
     res["F"] = [[float(v) for v in row] for row in F.reshape(-1, dof_n)]
+    if c.get("expose") and c["load"] in ("line", "surf", "volume"):
+        # the implementation's own quadrature data on the loaded elements, for the in-Coq run of the
+        # rational instance of the integration model (floats are exact dyadic rationals)
+        from EasyFEA.FEM._utils import MatrixType
+        kdim = {"line": 1, "surf": mesh.dim - 1, "volume": mesh.dim}[c["load"]]
+        nodes = np.asarray(res["nodes"], dtype=int)
+        exp = []
+        for g in mesh.Get_list_groupElem(kdim):
+            els = np.asarray(sorted(int(e) for e in g.Get_Elements_Nodes(nodes.copy(), exclusively=True)), dtype=int)
+            if els.size == 0:
+                continue
+            wJ = np.asarray(g.Get_weightedJacobian_e_pg(MatrixType.mass))[els]
+            N = np.asarray(g.Get_N_pg(MatrixType.mass))[:, 0, :]
+            xg = np.asarray(g.Get_GaussCoordinates_e_pg(MatrixType.mass, els))
+            fvals = []
+            for v in c["values"]:
+                if v["kind"] == "const":
+                    fvals.append(np.full(wJ.shape, float(v["v"])))
+                else:
+                    fvals.append(np.asarray(poly_fun(v["coeffs"])(xg[..., 0], xg[..., 1], xg[..., 2]), dtype=float))
+            exp.append({"type": g.elemType.name, "connect": [[int(n) for n in row] for row in g.connect[els]],
+                        "wJ": [[float(x).hex() for x in row] for row in wJ],
+                        "N": [[float(x).hex() for x in row] for row in N],
+                        "f": [[[float(x).hex() for x in row] for row in fv] for fv in fvals]})
+        res["exposed"] = exp
     if c.get("solve_thermal_patch"):
         # T = 0 at x = 0, flux on x = L: exact solution T(L) = q L / k whatever the thickness
         with contextlib.redirect_stdout(io.StringIO()):
